@@ -6,4 +6,4 @@ CONSTANTS
   VARIANT = "code"
   Depth = 1000000
   GEN = FALSE
-INVARIANTS ResolvedWasServed FreshOnFetch MissWhenDown RefreshPicksUp CacheWasServed Emit
+INVARIANTS ResolvedWasServed FreshOnFetch MissWhenDown RefreshPicksUp ResolvesServed CacheWasServed Emit
